@@ -160,7 +160,7 @@ func (rr *SIG) Verify(k *KEY, buf []byte) error {
 	}
 	// If key has come from the DNS name compression might
 	// have mangled the case of the name
-	if !equal(signername, k.Header().Name) {
+	if !equal(signername, k.Header().Name) && !equal(signername, unpackedSpelling(k.Header().Name)) {
 		return &Error{err: "signer name doesn't match key name"}
 	}
 	sigend := offset
@@ -205,4 +205,19 @@ func (rr *SIG) Verify(k *KEY, buf []byte) error {
 		}
 	}
 	return ErrKeyAlg
+}
+
+// unpackedSpelling returns the domain name s the way UnpackDomainName spells
+// it. A name can be written with other escapes than the ones unpacking
+// produces (\101 for e); it is still the same name.
+func unpackedSpelling(s string) string {
+	buf := make([]byte, maxDomainNameWireOctets)
+	if _, err := PackDomainName(s, buf, 0, nil, false); err != nil {
+		return s
+	}
+	name, _, err := UnpackDomainName(buf, 0)
+	if err != nil {
+		return s
+	}
+	return name
 }
